@@ -65,7 +65,7 @@ LOOPS[K + 'kappa_at_maxPhos'] = {0: dict(index='k', types={'newseq': 'list[char]
     'forall(lambda j: newseq[j] == ite(member(j, self.phosphosites, k), "E", self.seq[j]), 0, self.len)'])}
 
 CONTRACT[K + 'calculateNumberDifferentPhosphoStates'] = dict(self=mk_seq_phos(nsites=2), raises=[], modifies=[],
-                                                             cases=[dict(self=mk_seq_phos(nsites=k)) for k in (0, 1, 2, 3)],
+                                                             cases=[dict(self=mk_seq_phos(nsites=k)) for k in (0, 1, 2, 3, 4, 5)],
                                                              ensures=['result == 2 ** length(self.phosphosites)'])
 CONTRACT[K + 'calculateKappaDistOfPhosphoStates'] = dict(
     self=mk_seq_phos(nsites=1, dmax='unset'), cases=[dict(self=mk_seq_phos(nsites=k, dmax='unset')) for k in (0, 1, 2, 3)],
@@ -85,3 +85,9 @@ CONTRACT[K + 'get_STY_residues'] = dict(
     self=mk_seq_phos(), raises=[], modifies=[], returns='list[int]',
     ensures=['sty_list_ok(result, self.seq, self.len)'])
 LOOPS[K + 'get_STY_residues'] = {0: dict(index='k', types={'sites': 'list[int]'}, invariant=['idx == k + 1', 'sty_list_ok(sites, self.seq, k)'])}
+
+# four sites (16 phosphostates): thorough tier only
+CONTRACT[K + 'calculateKappaDistOfPhosphoStates#four'] = dict(CONTRACT[K + 'calculateKappaDistOfPhosphoStates'],
+                                                             cases=[dict(self=mk_seq_phos(nsites=4, dmax='unset'))])
+CONTRACT[K + 'calculateKappaDistOfPhosphoStates#five'] = dict(CONTRACT[K + 'calculateKappaDistOfPhosphoStates'],
+                                                             cases=[dict(self=mk_seq_phos(nsites=5, dmax='unset'))])
